@@ -221,11 +221,26 @@ Definition polyg_account_ok (ins : list line) (ps : list poly) (dangles cuts inv
   let D := useg dangles in let C := useg cuts in let R := useg invalid in
   set_eqb I (P ++ D ++ C ++ R) && nodup_segb D && nodup_segb C
   && disjoint_seg D P && disjoint_seg C P && disjoint_seg D C && disjoint_seg D R && disjoint_seg C R.
+(* no point is interior to two polygons (a side of an edge would then be used twice): tested at witnesses — the ear centroids
+   of every ring and the midpoints of every pair of vertices of each polygon *)
+Fixpoint ear_points (l : line) : list LocateDefs.hpt :=
+  match l with
+  | a :: (b :: c :: _) as t => (fst a + fst b + fst c, snd a + snd b + snd c, 3) :: ear_points t
+  | _ => []
+  end.
+Definition poly_witnesses (p : poly) : list LocateDefs.hpt :=
+  flat_map ear_points (fst p :: snd p)
+  ++ map (fun ab => LocateDefs.mid (fst ab) (snd ab)) (pairs (nodup_pts (fst p ++ concat (snd p)))).
+Definition poly_interior_h (q : LocateDefs.hpt) (p : poly) : bool :=
+  LocateDefs.location_eqb (LocateDefs.loc_poly_h q p) LocateDefs.Interior.
+Definition polyg_disjoint_ok (ps : list poly) : bool :=
+  forallb (fun q => (length (filter (poly_interior_h q) ps) <=? 1)%nat) (flat_map poly_witnesses ps).
 Definition polyg_dangles_ok (ins dangles : list line) : bool := set_eqb (useg dangles) (dangles_spec (useg ins)).
 Definition polyg_cuts_ok (ins cuts : list line) : bool := set_eqb (useg cuts) (cuts_spec (useg ins)).
 Definition polygonize_check (ins : list line) (ps : list poly) (dangles cuts invalid : list line) : bool :=
   nodup_segb (useg ins) && polyg_valid_ok ps && polyg_sides_ok ps && polyg_edges_in ins ps
-  && polyg_account_ok ins ps dangles cuts invalid && polyg_dangles_ok ins dangles && polyg_cuts_ok ins cuts.
+  && polyg_account_ok ins ps dangles cuts invalid && polyg_dangles_ok ins dangles && polyg_cuts_ok ins cuts
+  && polyg_disjoint_ok ps.
 
 (* ================================================================ shared paths *)
 (* the common unit sub-segments of two linework sets, split by relative direction.  Units are taken directed as in g1. *)
